@@ -40,6 +40,8 @@ import EinoV.Proofs.C08Tree.Progress
 import EinoV.Proofs.C08Tree.Prefix
 import EinoV.Model.C08Late
 import EinoV.Proofs.C08Late
+import EinoV.Model.C08Wide
+import EinoV.Proofs.C08Wide
 
 namespace EinoV.C08
 open EinoV.Gen
@@ -742,6 +744,85 @@ example : (runOps factsGen 60 [{}] 0
      .recv 2 (.item ⟨1, 0⟩), .recv 2 (.item ⟨2, 0⟩), .close 2, .pipe 1, .merge [3, 4],
      .recv 6 (.item ⟨3, 0⟩)]).toOption.isSome = false := by decide
 
+/-! ## merged readers of any width: the two descriptions of "live source" (family `wide`)
+
+  Delivery through a merged reader of ANY number of sources is `merge_per_source_order`,
+  `merge_eof_after_all`, `merge_progress` (component model, `caps` an arbitrary list, both sides of
+  `maxSelectNum`) and `tree_delivery` (network model: `Inter` over all remaining sources).  Those
+  models describe the `reflect.Select` path as a select over `chosenList` (`selCases` above `maxSel`).
+  The code keeps a second structure there, `itemsCases`, indexed by SOURCE INDEX.  The theorems of
+  this section show that with the bookkeeping found in the source the two agree after every sequence
+  of ends, for every width, so that the abstraction is sound: exactly the live sources are polled. -/
+
+/-- the bookkeeping facts as extracted from `multiStreamReader.recv` / `newMultiStreamReader` -/
+def wideFactsGen : WideFacts :=
+  { disableByIndex := FactsC08.reflectDisablesChosenIndex && FactsC08.chosenRemovedByValue &&
+      FactsC08.itemsCasesPerSource }
+
+theorem wide_facts_match : wideFactsGen = Expected.C08.wideFacts := by decide
+
+/-- **wide_polls_exactly_live.** A merged reader of ANY number `n` of sources; the ends of the
+    sources `ends` are noticed one after the other, in ANY order (ascending, descending, with gaps,
+    below and above `maxSelectNum` live sources).  Then: the sources a `Recv` polls are exactly the
+    sources in `chosenList`; those are exactly the sources that have not ended; hence an item
+    waiting in ANY source that has not ended is delivered even when every other source is silent;
+    and `chosenList` is empty — `Recv` returns io.EOF — iff every source has ended. -/
+theorem wide_polls_exactly_live (n : Nat) (ends : List Nat) (w : WideSt)
+    (hr : (WideSt.init n).run wideFactsGen FactsC08.maxSelectNum ends = some w) :
+    (∀ s, s ∈ w.polled FactsC08.maxSelectNum ↔ s ∈ w.chosen) ∧
+    (∀ s, s ∈ w.chosen ↔ s < n ∧ s ∉ ends) ∧
+    (∀ s, s < n → s ∉ ends → w.delivers FactsC08.maxSelectNum s = true) ∧
+    (w.chosen = [] ↔ ∀ s, s < n → s ∈ ends) := by
+  have hf : wideFactsGen = ⟨true⟩ := by decide
+  rw [hf] at hr
+  obtain ⟨inv, _, _, hc⟩ := WInv.run ends (WInv.init n FactsC08.maxSelectNum) hr
+  have hch : ∀ s, s ∈ w.chosen ↔ s < n ∧ s ∉ ends := by
+    intro s; rw [hc s]; simp [WideSt.init]
+  refine ⟨inv.polled_iff, hch, ?_, ?_⟩
+  · intro s hs he
+    simp only [WideSt.delivers, List.contains_iff_mem]
+    exact (inv.polled_iff s).mpr ((hch s).mpr ⟨hs, he⟩)
+  · constructor
+    · intro h0 s hs
+      refine Classical.byContradiction fun hn => ?_
+      have := (hch s).mpr ⟨hs, hn⟩
+      simp [h0] at this
+    · intro hall
+      refine List.eq_nil_iff_forall_not_mem.mpr fun s hs => ?_
+      have := (hch s).mp hs
+      exact this.2 (hall s this.1)
+
+/-- … and every order is a behaviour (the statement above is not vacuous for any order): noticing
+    the end of a source that has not ended is always enabled. -/
+theorem wide_every_end_order_is_a_run (n : Nat) (ends : List Nat) (hnd : ends.Nodup)
+    (hlt : ∀ s ∈ ends, s < n) :
+    ∃ w, (WideSt.init n).run wideFactsGen FactsC08.maxSelectNum ends = some w := by
+  have hf : wideFactsGen = ⟨true⟩ := by decide
+  rw [hf]
+  exact WInv.run_enabled ends (WInv.init n FactsC08.maxSelectNum) hnd
+    (fun s hs => by simpa [WideSt.init] using hlt s hs)
+
+/-- **wide_model_select_is_the_polled_set.** The select of the component / network model (`selCases`
+    with the extracted table: one case `(c, c)` per position `c` of `chosenList`) ranges over exactly
+    the sources the code polls — below and above `maxSelectNum`. -/
+theorem wide_model_select_is_the_polled_set (n : Nat) (ends : List Nat) (w : WideSt)
+    (hr : (WideSt.init n).run wideFactsGen FactsC08.maxSelectNum ends = some w) (s : Nat) :
+    s ∈ w.polled FactsC08.maxSelectNum ↔
+      ∃ c, (c, c) ∈ selCases FactsC08.receiveN FactsC08.maxSelectNum w.chosen.length ∧ w.chosen[c]? = some s := by
+  rw [(wide_polls_exactly_live n ends w hr).1 s, selCases_ok table_ok]
+  constructor
+  · intro hs
+    obtain ⟨c, hc, he⟩ := List.getElem_of_mem hs
+    exact ⟨c, by simp [hc], by simp [List.getElem?_eq_getElem hc, he]⟩
+  · rintro ⟨c, _, hc⟩
+    exact List.mem_of_getElem? hc
+
+/-- eight sources, 0 and then 2 have ended (six live: the reflect path): every one of the six is
+    polled, 0 and 2 are not -/
+example : ((WideSt.init 8).run wideFactsGen FactsC08.maxSelectNum [0, 2]).map
+    (fun w => (w.chosen, w.armed, w.polled FactsC08.maxSelectNum))
+    = some ([1, 3, 4, 5, 6, 7], [false, true, false, true, true, true, true, true], [1, 3, 4, 5, 6, 7]) := by decide
+
 /-! ## non-vacuity: concrete non-trivial behaviours -/
 
 /-- a capacity-2 pipe: two sends, a receive, the third send, writer close, drain, EOF -/
@@ -837,5 +918,17 @@ theorem array_handover_ignoring_index_repeats_items :
     [⟨1, 0⟩, ⟨2, 0⟩, ⟨3, 0⟩].take 1 ++
       arrTakeOver { lateFactsGen with arrayFromIndex := false } [⟨1, 0⟩, ⟨2, 0⟩, ⟨3, 0⟩] 1
     = [(⟨1, 0⟩ : Item), ⟨1, 0⟩, ⟨2, 0⟩, ⟨3, 0⟩] := by decide
+
+/-- If the case were switched off at the POSITION of the ended source in `chosenList` instead of at
+    its index: eight sources, 0 ends, then 2 (position 1 among the live ones) — the case of source 1,
+    which is still open, is switched off and that of source 2 stays on: an item in source 1 is not
+    delivered while six sources are live.  In the order 2, 0 nothing goes wrong. -/
+theorem wide_disable_by_position_starves_live_source :
+    ((WideSt.init 8).run { disableByIndex := false } FactsC08.maxSelectNum [0, 2]).map
+      (fun w => (w.chosen, w.armed, w.delivers FactsC08.maxSelectNum 1))
+      = some ([1, 3, 4, 5, 6, 7], [false, false, true, true, true, true, true, true], false) ∧
+    ((WideSt.init 8).run { disableByIndex := false } FactsC08.maxSelectNum [2, 0]).map
+      (fun w => (w.chosen, w.delivers FactsC08.maxSelectNum 1)) = some ([1, 3, 4, 5, 6, 7], true) := by
+  decide
 
 end EinoV.C08
